@@ -242,6 +242,22 @@ class EzspRig:
         self.gw.modes = []
         return ev
 
+    async def swap(self):
+        """the protocol handler is replaced through the public EZSP.reset(): legacy handler, fresh sequence numbers and registrations"""
+        raised = 0
+        try:
+            await self.ezsp.reset()
+        except BaseException as e:  # noqa
+            raised = 1
+            self.out.append({"o": "raised", "exc": type(e).__name__})
+        await self.settle()
+        self.version = 4
+        self.layout = ncp_ezsp.layout_of(4)
+        self.cmds = ncp_ezsp.commands_of(4)
+        self.by_id = {cid: n for n, (cid, _a, _b) in self.cmds.items()}
+        self.helper = ncp_ezsp.NcpEzsp(4, self.loop, deliver=None)
+        return self._event({"a": "swap", "raised": raised})
+
     def next_timer(self):
         ws = [h._when for h in self.loop._scheduled if not h._cancelled]
         return min(ws) if ws else None
